@@ -312,4 +312,68 @@ theorem fromFile_finish (enc : Bytes → Bytes) (dec : Bytes → Option Bytes) (
   have hne1 : ¬ (headerSize p.blobs ≠ (enc (toBinary p.blobs)).length) := fun hne => hne hs
   simp only [hne1, if_false, ne_eq, not_true_eq_false]
 
+theorem find_by_fst {α : Type} (l : List (Nat × α)) (hn : (l.map (·.1)).Nodup) (q : Nat × α) (hq : q ∈ l) :
+    l.find? (fun x => x.1 == q.1) = some q := by
+  induction l with
+  | nil => cases hq
+  | cons x xs ih =>
+    rw [List.map_cons, List.nodup_cons] at hn
+    rcases List.mem_cons.mp hq with rfl | hq'
+    · simp
+    · have hne : (x.1 == q.1) = false := by
+        rw [beq_eq_false_iff_ne]
+        intro h
+        exact hn.1 (h ▸ List.mem_map.mpr ⟨q, hq', rfl⟩)
+      rw [List.find?_cons, hne]
+      exact ih hn.2 hq'
+
+
+theorem chunk_slice (cs : List Bytes) (i : Nat) (c : Bytes) (h : cs[i]? = some c) :
+    (cs.flatten.drop (((cs.take i).map List.length).sum)).take c.length = c := by
+  induction cs generalizing i with
+  | nil => simp at h
+  | cons x xs ih =>
+    cases i with
+    | zero =>
+      simp only [List.getElem?_cons_zero, Option.some.injEq] at h
+      subst h
+      simp
+    | succ i =>
+      simp only [List.getElem?_cons_succ] at h
+      simp only [List.take_succ_cons, List.map_cons, List.sum_cons, List.flatten_cons]
+      rw [List.drop_append]
+      have : x.length + ((xs.take i).map List.length).sum - x.length = ((xs.take i).map List.length).sum := by omega
+      rw [List.drop_eq_nil_of_le (by omega), List.nil_append, this]
+      exact ih i h
+
+theorem reoffset_getElem? (off : Nat) (bs : List IndexBlob) (i : Nat) :
+    (reoffset off bs)[i]? = bs[i]?.map (fun b => { b with loc := { b.loc with offset := off + ((lens bs).take i).sum } }) := by
+  induction bs generalizing off i with
+  | nil => simp [reoffset]
+  | cons b bs ih =>
+    cases i with
+    | zero => simp [reoffset, lens]
+    | succ i =>
+      simp only [reoffset, List.getElem?_cons_succ, ih, lens, List.map_cons, List.take_succ_cons, List.sum_cons]
+      cases bs[i]? <;> simp [Nat.add_assoc]
+
+/-- the byte range the index records for the `i`-th blob holds exactly the `i`-th chunk written -/
+theorem Packer.Inv.blob_bytes {p : Packer} (h : p.Inv) (i : Nat) (b : IndexBlob) (c : Bytes)
+    (hb : p.blobs[i]? = some b) (hc : p.file[i]? = some c) :
+    (p.file.flatten.drop b.loc.offset).take b.loc.length = c := by
+  have hoff : b.loc.offset = ((p.file.take i).map List.length).sum := by
+    have := reoffset_getElem? 0 p.blobs i
+    rw [h.offsets, hb] at this
+    simp only [Option.map_some, Option.some.injEq, Nat.zero_add] at this
+    have h2 := congrArg (fun x => x.loc.offset) this
+    simp only at h2
+    rw [h2, ← h.chunks, List.map_take]
+  have hlen : b.loc.length = c.length := by
+    have h1 : (p.file.map List.length)[i]? = some c.length := by simp [hc]
+    rw [h.chunks] at h1
+    simp only [lens, List.getElem?_map, hb, Option.map_some, Option.some.injEq] at h1
+    exact h1
+  rw [hoff, hlen]
+  exact chunk_slice p.file i c hc
+
 end Rustic.Pack
